@@ -10,6 +10,7 @@ import RSVerif.Gen.SrcUtils
 import RSVerif.Model.Engine
 import RSVerif.Model.TableInit
 import RSVerif.Proofs.Walsh
+import RSVerif.Proofs.SrcUtilsAux
 
 namespace RS.SrcU
 open RS RS.RustU
@@ -17,39 +18,40 @@ open RS RS.RustU
 /-- every entry is a `u16` -/
 def U16s (a : Array Nat) : Prop := ∀ i, a.getD i 0 < 65536
 
-theorem src_add_mod (x y : Nat) (hx : x < 65536) (hy : y < 65536) : U_add_mod x y = some (addMod x y) := by
-  sorry
+theorem src_add_mod (x y : Nat) (hx : x < 65536) (hy : y < 65536) : U_add_mod x y = some (addMod x y) :=
+  UAux.aux_add_mod x y hx hy
 
 theorem src_sub_mod (x y : Nat) (hx : x < 65536) (hy : y < 65536) : U_sub_mod x y = some (subMod x y) := by
-  sorry
+  have _ := hx; have _ := hy
+  exact UAux.aux_sub_mod x y
 
-theorem src_fwht_2 (a b : Nat) (ha : a < 65536) (hb : b < 65536) : U_fwht_2 a b = some (addMod a b, subMod a b) := by
-  sorry
+theorem src_fwht_2 (a b : Nat) (ha : a < 65536) (hb : b < 65536) : U_fwht_2 a b = some (addMod a b, subMod a b) :=
+  UAux.aux_fwht_2 a b ha hb
 
 /-- the sequential in-place Walsh transform of the source (radix-4 passes at distances 1, 4, …, 16384 over the
     groups that start below `m_truncated`) is the pointwise transform of the model -/
 theorem src_fwht (data : Array Nat) (hs : data.size = 65536) (hd : U16s data) (m : Nat) (hm : m ≤ 65536) :
-    U_fwht data m = some (fwht data m) := by
-  sorry
+    U_fwht data m = some (fwht data m) :=
+  UAux.aux_fwht data hs hd m hm
 
 /-- `utils::eval_poly` with the `LOG_WALSH` table `lw` -/
 theorem src_eval_poly (lw er : Array Nat) (hl : lw.size = 65536) (he : er.size = 65536) (hlw : U16s lw)
     (her : U16s er) (t : Nat) (ht : t ≤ 65536) :
-    U_eval_poly lw er t = some (evalPolyWith lw er t) := by
-  sorry
+    U_eval_poly lw er t = some (evalPolyWith lw er t) :=
+  UAux.aux_eval_poly lw er hl he hlw her t ht
 
 /-- `tables::mul(x, log_m, exp, log)` -/
 theorem src_mul (exp log : Array Nat) (hE : exp.size = 65536) (hL : log.size = 65536) (hl : U16s log)
     (x logm : Nat) (hx : x < 65536) (hm : logm < 65536) :
-    U_mul x logm exp log = some (tmul exp log x logm) := by
-  sorry
+    U_mul x logm exp log = some (tmul exp log x logm) :=
+  UAux.aux_mul exp log hE hL hl x logm hx hm
 
 /-- `utils::formal_derivative` on `a.size` shards: the `xor_within` calls it makes, applied in order, are the
     model's `formalDerivative` (no `usize` operation overflows or underflows) -/
 theorem src_formal_derivative {V : Type} [ShardAlg V] (a : Array V) (hs : a.size ≤ 65536) :
     ∃ calls, U_formal_derivative a.size = some calls ∧
-      calls.foldl (fun (b : Array V) (c : Nat × Nat × Nat) => xorWithin b c.1 c.2.1 c.2.2) a = formalDerivative a := by
-  sorry
+      calls.foldl (fun (b : Array V) (c : Nat × Nat × Nat) => xorWithin b c.1 c.2.1 c.2.2) a = formalDerivative a :=
+  UAux.aux_formal_derivative a hs
 
 /-- the delegations of today's source: `xor_within` = `flat2_mut` + `xor`; `fft_skew_end` / `ifft_skew_end` pass
     `skew_delta = pos + size` -/
